@@ -67,12 +67,16 @@ def run(model: RepoModel, rep, tier: str):
     # ------------------------------------------------------------------ R1
     called_in_sinks = {n.func.attr for n in walk_no_nested(fk.node) if isinstance(n, ast.Call) and isinstance(n.func, ast.Attribute)
                        and isinstance(n.func.value, ast.Attribute) and n.func.value.attr == "rule_applier"}
+    # the local holding the statement's operation (by role: assigned from <stmt>.operation)
+    op_vars = {n.targets[0].id for n in walk_no_nested(gs.node) if isinstance(n, ast.Assign) and isinstance(n.targets[0], ast.Name)
+               and isinstance(n.value, ast.Attribute) and (n.value.attr == "operation" or n.value.attr == "name" and isinstance(n.value.value, ast.Name)
+                                                            and n.value.value.id in gs.params)} or {"operation"}
     tag_branches = {const_str(n.test.comparators[0]) for n in walk_no_nested(gs.node)
                     if isinstance(n, ast.If) and isinstance(n.test, ast.Compare) and isinstance(n.test.left, ast.Name)
-                    and n.test.left.id == "operation" and isinstance(n.test.ops[0], ast.Eq)}
+                    and n.test.left.id in op_vars and isinstance(n.test.ops[0], ast.Eq)}
     # duplicate (unreachable) arms
     arms = [const_str(n.test.comparators[0]) for n in walk_no_nested(gs.node) if isinstance(n, ast.If) and isinstance(n.test, ast.Compare)
-            and isinstance(n.test.left, ast.Name) and n.test.left.id == "operation"]
+            and isinstance(n.test.left, ast.Name) and n.test.left.id in op_vars]
     dups = sorted({a for a in arms if arms.count(a) > 1})
     if dups:
         rep.info("C10.R1", f"{TA}::get_sink_tag_by_rules::duplicate arms {dups}", TA, gs.node.lineno,
@@ -102,15 +106,20 @@ def run(model: RepoModel, rep, tier: str):
     files = ["source.yaml", "sink.yaml", "propagation.yaml"]
     src_dispatch = {const_str(n.comparators[0]) for n in walk_no_nested(fs.node) if isinstance(n, ast.Compare) and dotted(n.left) == "node.name"}
     op_compares: Set[str] = set()
+    def _loop_targets(fnode) -> Set[str]:
+        return {x.id for n in walk_no_nested(fnode) if isinstance(n, (ast.For, ast.comprehension)) for x in ast.walk(n.target) if isinstance(x, ast.Name)}
     for f in ap.methods.values():
+        lt = _loop_targets(f.node)
         for n in walk_no_nested(f.node):
-            if isinstance(n, ast.Compare) and dotted(n.left) == "rule.operation":
+            # `<rule loop variable>.operation == "..."` (the variable is found by role: a loop target)
+            if isinstance(n, ast.Compare) and isinstance(n.left, ast.Attribute) and n.left.attr == "operation" \
+                    and isinstance(n.left.value, ast.Name) and n.left.value.id in lt:
                 for c in n.comparators:
                     if const_str(c):
                         op_compares.add(const_str(c))
     kinds_without_op_test = {kind for name, (f, coll, kind) in acc.items() if kind and "operation" not in {
         x.attr for t in walk_no_nested(f.node) if isinstance(t, ast.If) for x in ast.walk(t.test)
-        if isinstance(x, ast.Attribute) and isinstance(x.value, ast.Name) and x.value.id == "rule"}}
+        if isinstance(x, ast.Attribute) and isinstance(x.value, ast.Name) and x.value.id in _loop_targets(f.node)}}
     for i, fname in enumerate(files):
         rules = yaml_rules(model.root, fname)
         if not rules:
